@@ -4,7 +4,7 @@ from ..env import sub_rng
 
 ID = 'C04'
 LEVEL = 'exploration'
-RUNS = {'quick': 1500, 'thorough': 40000}
+RUNS = {'quick': 1500, 'thorough': 120000}
 WALL = {'quick': 90, 'thorough': 1200}
 RULE = ("seeded op sequences (Set*/Step/Solve/Finalize, mid-run reconfiguration, stop-and-resume) over "
         "NM/Powell/DE/DE2 with scripted cost/constraint/penalty peers; a run is non-trivial when it "
